@@ -13,6 +13,7 @@ CONSTANTS
   FollowAppend = TRUE
   ResyncChecksRound = TRUE
   ResyncDeletesFirst = FALSE
+  CheckZeroIsClock = FALSE
   Aborts = FALSE
   PinsOperatorHash = TRUE
   MaxAgg = 2
